@@ -167,3 +167,59 @@ func vh_C12_SpawnTree() {
 	vfAssert("default-actor-closed", Actor.GetDefault().IsClosed())
 	vfReach("end")
 }
+
+// deep variants: two senders with one item each on a FRESH mailbox, every schedule with <= 3 scheduling deviations (a first
+// preemption may be needed to set two things up, a second one to make them overlap)
+func vh_C12_HandlerDeep() {
+	vfSetDelayBound(3)
+	h := Handler.NewByCh(make(chan func(), vfRange("cap", 0, 1)))
+	var log []c12Ev
+	inside, overlap := false, false
+	var wg sync.WaitGroup
+	for s := 0; s < 2; s++ {
+		wg.Add(1)
+		s := s
+		go func() {
+			h.Post(func() {
+				if inside {
+					overlap = true
+				}
+				inside = true
+				log = append(log, c12Ev{s, 0})
+				inside = false
+			})
+			wg.Done()
+		}()
+	}
+	wg.Wait()
+	vfQuiesce()
+	c12CheckLog(log, 2, 1, overlap)
+	vfReach("end")
+}
+
+func vh_C12_ActorDeep() {
+	vfSetDelayBound(3)
+	var log []c12Ev
+	inside, overlap := false, false
+	a := ActorNewByOptionsGenerics(func(ac *ActorDef[c12Ev], msg c12Ev) {
+		if inside {
+			overlap = true
+		}
+		inside = true
+		log = append(log, msg)
+		inside = false
+	}, make(chan c12Ev, vfRange("cap", 0, 1)), map[string]interface{}{})
+	var wg sync.WaitGroup
+	for s := 0; s < 2; s++ {
+		wg.Add(1)
+		s := s
+		go func() {
+			a.Send(c12Ev{s, 0})
+			wg.Done()
+		}()
+	}
+	wg.Wait()
+	vfQuiesce()
+	c12CheckLog(log, 2, 1, overlap)
+	vfReach("end")
+}
